@@ -124,3 +124,24 @@ class SaveFile(IoContract):
 def register(reg):
     for c in (NodeFromProtobufIR(), IrToProtobuf(), LoadFile(), SaveFile()):
         reg.add(c)
+
+
+class IrVersionGuard(Contract):
+    """guard contract (prefix of IR._decode_protobuf): a message whose version field differs from this API's protobuf
+    version is rejected with ValueError before anything is built"""
+    target = "ir.py::IR._decode_protobuf"
+    props = ("C17",)
+    params = {"proto_ir": "pb:IR", "uuid": "val", "_": "val"}
+    modifies = ()
+    prefix_until = staticmethod(lambda src: src.startswith("ir = "))
+
+    def pre(self, c, a):
+        return {"message_typed": c.eng.schema.pb.typed(c, a.proto_ir.t, "IR")}
+
+    def raises(self, c0, a):
+        return {"ValueError": ival(c0.get("pb.IR.version", a.proto_ir.t)) != protobuf_version()}
+
+
+def register(reg):       # noqa: F811
+    for c in (NodeFromProtobufIR(), IrToProtobuf(), LoadFile(), SaveFile(), IrVersionGuard()):
+        reg.add(c)
